@@ -2,6 +2,8 @@
 package props
 
 import (
+	"crypto/rsa"
+	"crypto/x509"
 	"fmt"
 	"time"
 
@@ -162,4 +164,11 @@ func trunc(s string, n int) string {
 		return s[:n] + "…"
 	}
 	return s
+}
+
+func parseCert(der []byte) (*x509.Certificate, error) { return x509.ParseCertificate(der) }
+
+func rsaPub(c *x509.Certificate) (*rsa.PublicKey, bool) {
+	p, ok := c.PublicKey.(*rsa.PublicKey)
+	return p, ok
 }
